@@ -40,11 +40,15 @@ def units(tier):
         for case in sc.cases: us.append(('%s/%s' % (key, sc.case_name(case)), {'key': key, 'case': case, 'tier': tier}))
     us += [(n, dict(k, tier=tier, riemann=True)) for n, k in rk.units('C10', ['selfsimilar'], tier)]
     us.append(('guderley', {'gud': True}))
+    us += [('sedov/geometry=%d' % j_, {'sedov': j_}) for j_ in (1, 2, 3)]
     us.append(('mader', {'mader': True}))
     return us
 
 
-def run_unit(name, key=None, case=None, tier='quick', riemann=False, pat=None, fam=None, mader=False, gud=False):
+def run_unit(name, key=None, case=None, tier='quick', riemann=False, pat=None, fam=None, mader=False, gud=False, sedov=None):
+    if sedov:
+        from props import sedov_kit
+        return sedov_kit.unit_similarity(sedov)
     if gud:
         from props import guderley_kit
         return guderley_kit.unit('C10')
